@@ -396,3 +396,59 @@ def gen_hook(seed, n):
         a = b32.addr(rnd.choice(["osmo", "celestia", "x" * 20]), "d%d" % k, rnd.choice([20, 32, 1, 0, 50]), rnd.choice([1, 1, 0x2bc830a3]))
         lines.append("fn b32dec %s" % hx(rnd.choice([a, a.upper(), corrupt_addr(rnd, a, "osmo"), a[:4] + a[4:].upper()])))
     return "\n".join(lines) + "\n", {"cases": len(lines)}
+
+
+# ---------------- C18: migrations ----------------
+def gen_migrate(seed, n):
+    rnd = random.Random(seed)
+    lines = []
+    STAT = ["sent", "ack_failure", "timed_out", "ack_failure", "sent", "ack_success"]
+    for h in range(n):
+        c = Cfg(rnd, h)
+        lines.append(header("osmosis", c.me))
+        npk = rnd.choice([0, 0, 1, 2, 5, 12]); nwt = rnd.choice([0, 0, 1, 2])
+        seqs = sorted(rnd.sample(range(1, 200), npk)); ids = sorted(rnd.sample(range(10 ** 18, 10 ** 18 + 500), nwt))
+        pk = "[" + ",".join("%d/%d/%s" % (q, rnd.choice([1, 1000, 10 ** 27, 2 ** 128 - 1, rnd.randrange(1, 10 ** 12)]), rnd.choice(STAT)) for q in seqs) + "]"
+        wt = "[" + ",".join("%d/%d" % (q, rnd.randrange(1, 10 ** 15)) for q in ids) + "]"
+        mons = rnd.choice(["-", "[]", "[%s]" % hx(c.monitors[0])])
+        vals = "[" + ",".join(hx(v) for v in c.validators) + "]"
+        orc = hx(c.oracle) if c.oracle else "-"
+        layout = rnd.choice(["0418", "0420", "100"])
+        stopped = rnd.choice(["0", "1"])
+        if layout == "0418":
+            ops_ = rnd.choice(["-", "[%s]" % hx(c.users[0])])
+            lines.append("leg0418 %s %s %s %s %s %s %d %d %d %s %s %d %s %s %s %s %s %s %s" % (
+                hx(D), hx("factory/%s/stTIA" % c.me), hx(c.treasury or b32.addr("osmo", "t", 32)), ops_, mons, vals, c.bp, c.unbonding, c.fee,
+                hx(c.staker), hx(c.collector), c.min, hx(c.channel), stopped, rnd.choice(["-", orc]), rnd.choice(["-", orc]), orc, pk, wt))
+        elif layout == "0420":
+            tre = rnd.choice([c.treasury or b32.addr("osmo", "t", 32), b32.addr("cosmos", "t", 32), "bad"])
+            stk = rnd.choice([c.staker, c.staker, b32.addr("osmo", "s")])
+            lines.append("leg0420 %s %s %s %s %s %d %d %d %s %s %d %s %s %s %s %s %s" % (
+                hx(D), hx("factory/%s/stTIA" % c.me), hx(tre), mons, vals, c.bp, c.unbonding, c.fee,
+                hx(stk), hx(c.collector), c.min, hx(c.channel), stopped, orc, rnd.choice(["0", "1"]), pk, wt))
+        else:
+            o = hx(c.oracle) if c.oracle else "-"; tr = hx(c.treasury) if c.treasury else "-"
+            lines.append("leg100 %s (%s;%s;%s;%d;%s) (%d;%s) %s [%s] %d %s %s %s" % (
+                c.native(), hx("osmo"), hx(D), hx(c.channel), c.min, o, c.fee, tr, hx("factory/%s/stTIA" % c.me),
+                ",".join(hx(m) for m in c.monitors), c.bp, stopped, pk, wt))
+        right = {"0418": "0.4.18", "0420": "0.4.20", "100": "1.0.0"}[layout]
+        vers = [right, right, right, "0.4.18", "0.4.20", "1.0.0", "1.1.0", "1.1.1", "2.0.0", "0.4.19", "1.0", "abc", "", "1.0.0-rc1", "01.0.0", "1.0.0 "]
+        names = ["staking", "staking", "staking", "staking", "treasury", "Staking", ""]
+        paths = {"0418": "v0418 %s" % rnd.choice(["0", "1"]),
+                 "0420": "v0420 %s %s %s %s" % (hx(rnd.choice(["celestia", "celestia", "CELESTIA", "cel estia", "osmo"])), hx(rnd.choice(["celestiavaloper", "celestiavaloper", ""])),
+                                                hx(rnd.choice(["utia", "utia", "ut", "uti4"])), hx(rnd.choice(["osmo", "osmo", "OSMO", "cosmos"]))),
+                 "100": "v100"}
+        for k in range(6):
+            ver = rnd.choice(vers) if k else right
+            name = rnd.choice(names) if k else "staking"
+            path = paths[layout] if (k == 0 or rnd.random() < 0.6) else paths[rnd.choice(["0418", "0420", "100"])]
+            lines.append("setver %s %s" % (hx(name), hx(ver)))
+            # refused migrations change nothing; successful ones are rolled back too so that every attempt starts from the same store
+            lines.append("tx_begin_m")
+            lines.append("mig " + path)
+            lines.append("tx_abort_m")
+        # finally the right one, kept, followed by a second attempt (now at the new version: refused)
+        lines.append("setver %s %s" % (hx("staking"), hx(right)))
+        lines.append("mig " + paths[layout])
+        lines.append("mig " + paths[layout])
+    return "\n".join(lines) + "\n", {"histories": n}
